@@ -461,3 +461,90 @@ def unique_field_names(ctx, rid, rules, floor=None):
     if not n:
         from .facts import AnchorLost
         raise AnchorLost('no pattern found for the rules %s' % sorted(rules))
+
+
+# ---------------------------------------------------------------------------------------------
+# Field reads: the typed getters of tokinizer::tools and the token payload read directly are the same value.
+# get_time("f", fields) is `match fields.get("f").token_type { Time(t, tz) => Some((t, tz)), Variable(v) => the TimeItem's
+# (t, tz), _ => None }`; a rule function that spells that match itself (or reads the payload of a token whose kind its
+# pattern fixes) reads the same thing. canon_field_reads rewrites the direct spellings to the getter spelling, position by
+# position, so rules written in the getter vocabulary see both.
+KIND_GETTER = {'Time': ('get_time', 2), 'Date': ('get_date', 2), 'DateTime': ('get_date_time', 2), 'Timezone': ('get_timezone', 2),
+               'Number': ('get_number', 1), 'Duration': ('get_duration', 1), 'Percent': ('get_percent', 1), 'Month': ('get_month', 1)}
+ITEM_GETTER = {'TimeItem': ('get_time', 2), 'DateItem': ('get_date', 2), 'DateTimeItem': ('get_date_time', 2),
+               'NumberItem': ('get_number', 1), 'DurationItem': ('get_duration', 1), 'PercentItem': ('get_percent', 1)}
+_TOK = re.compile(r'^BTreeMap::get\(fields, "([^"]+)"\) as Some\.0\.token_type as Some\.0$')
+_VAR = re.compile(r'^BTreeMap::get\(fields, "([^"]+)"\) as Some\.0\.token_type as Some\.0 as Variable\.0\.data as Item\.0$')
+
+
+def _find_get(e):
+    for x in walk(e):
+        if x[0] == 'call' and re.search(r'BTreeMap::<.*>::get$|BTreeMap<.*>::get$|::get$', x[1]) and len(x[2]) == 2:
+            return x
+    return None
+
+
+def _getter_node(getter, arity, get_call, idx):
+    call = ('call', 'tokinizer::tools::%s' % getter, [get_call[2][1], get_call[2][0]], None)
+    payload = ('field', ('downcast', call, 'Some'), '0', 'core::option::Option.0')
+    if arity == 1:
+        return payload if idx == 0 else None
+    return ('field', payload, '#%d' % idx, 'tuple.%d' % idx)
+
+
+def canon_field_reads(e):
+    from .facts import rebuild
+
+    def f(n):
+        if n[0] == 'phi':
+            rs = []
+            for a in n[2]:
+                if render(a) not in [render(x) for x in rs]:
+                    rs.append(a)
+            if len(rs) == 1 and len(n[2]) > 1:
+                return rs[0]
+            return n
+        if n[0] != 'field':
+            return n
+        idx = str(n[2]).lstrip('#')
+        base = n[1]
+        while base[0] in ('ref', 'deref'):
+            base = base[1]
+        # (phi of tuples).i -> phi of the i-th components
+        if base[0] == 'phi' and idx.isdigit() and base[2] and all(strip(a)[0] == 'aggr' and strip(a)[1] == 'tuple' and len(strip(a)[2]) > int(idx) for a in base[2]):
+            comps = [strip(a)[2][int(idx)] for a in base[2]]
+            return f(('phi', base[1], comps) + tuple(base[3:]))
+        if base[0] == 'aggr' and base[1] == 'tuple' and idx.isdigit() and len(base[2]) > int(idx):
+            return base[2][int(idx)]
+        if not idx.isdigit():
+            return n
+        # the payload of the token itself: `fields.get("f").token_type as Kind.i`
+        if base[0] == 'downcast' and base[2] in KIND_GETTER:
+            m = _TOK.match(render(base[1]))
+            g = _find_get(base[1]) if m else None
+            if g is not None:
+                getter, arity = KIND_GETTER[base[2]]
+                r = _getter_node(getter, arity, g, int(idx))
+                if r is not None:
+                    return r
+        # the item a variable holds: `downcast_ref::<KindItem>(as_any(.. as Variable.0.data as Item.0)) as Some.0.i`
+        if base[0] == 'field' and str(base[2]).lstrip('#') == '0' and base[1][0] == 'downcast' and base[1][2] == 'Some':
+            c = base[1][1]
+            while c[0] in ('ref', 'deref'):
+                c = c[1]
+            if c[0] == 'call' and re.search(r'::downcast_ref$', c[1]) and c[2] and isinstance(c[3], dict):
+                gen = ((c[3].get('callee') or {}).get('gen') or [])
+                item = [x.rsplit('::', 1)[-1] for x in gen if x.rsplit('::', 1)[-1] in ITEM_GETTER]
+                inner = c[2][0]
+                ic = strip(inner)
+                if ic[0] == 'call' and re.search(r'::as_any$', ic[1]) and ic[2]:
+                    inner = ic[2][0]
+                m = _VAR.match(render(inner))
+                g = _find_get(inner) if m else None
+                if item and g is not None:
+                    getter, arity = ITEM_GETTER[item[0]]
+                    r = _getter_node(getter, arity, g, int(idx))
+                    if r is not None:
+                        return r
+        return n
+    return rebuild(e, f)
